@@ -8,6 +8,48 @@ NOTES = ('Technique: machine-checked proof in Lean 4 over an executable model ti
          'same generated operations; the implementation-side property oracle runs on every generated case. See DESIGN.md.')
 NOT_CLAIMED = {}
 CLAIMS = {
+ 'C07': dict(
+  technique='Lean 4 theorems over a transcription of session.refLoop (message handlers, processTasks) + trace validation of its hook events + storage-contents oracles',
+  text=('5 theorem groups (Props/C07.lean) over Model/RefLoop.lean: no_premature_delete (the loop never removes a table that a referenced-and-unreleased version or the current version contains; incl. conversion to full references after '
+        'maxCachedNumber versions and the timer), eventual_delete (at quiescence the reference map is exactly the current version and every table that left the version was removed exactly once), delta_once_needed (a table listed twice in a delta '
+        'is never removed — defect D13, found and fixed), startup_sweep for checkAndCleanFiles. Environment hypotheses (consecutive version ids, exact duplicate-free deltas) are explicit. Tie: maxCachedNumber regenerated; DB programs with long-held '
+        'iterators (>= 300 version changes behind one pin), discarded transactions and reopen; every ref/delta/release/abandon message of the real loop is replayed in the model and the tables it removes must be the tables the real loop removed (~10 000 lines per run); '
+        'oracles: held iterators keep their creation-time contents, storage = live set at settled points and after reopen, space is given back after delete-all + CompactRange, no pinned table removed.'),
+  note='Physical removal is deferred through the file cache (C17.del_after_last_handle). Abandoned ids and the final release at Close are modelled and trace-checked but not covered by the theorems.'),
+ 'C09': dict(
+  technique='Lean 4 lock-flow model with regenerated release facts (released_on_return, progress, termination measure, close_returns) + fault scripts and Close races under watchdogs',
+  text=('21 theorems (Props/C09.lean) over Model/Locks.lean (write-lock token, compCommitLk, compaction command/ack rendezvous with their closeC/error alternatives, every public call as a control-flow graph with ok/fail storage outcomes): for every configuration '
+        'whose three release flags are set (code_three_fixed is decided over facts read off the Go AST: Transaction.Commit unlocks compCommitLk on its error return, OpenTransaction returns the token on its error returns, DB.Write discards after a failed commit) '
+        'and runs without SetReadOnly: released_on_return, progress (a step is enabled while a call is pending), recovers_after_faults (a measure decreases on every fault-free step), close_returns; explicit hanging runs for each flag unset (leak_commit, leak_opentx, '
+        'leak_largebatch: defects D5 D6 D7, found by this check and fixed) and for the remaining SetReadOnly/Close race (known_finding_setreadonly_close). Tie: the extracted facts; per run ~45 single-client scripts with one injected failure window on journal/manifest/table '
+        'create/write/sync/remove and ~25 races of 4-24 clients (Put, large Write, transactions, CompactRange, readers) against one Close; every call under a watchdog; after the faults stop put, transaction, large batch, CompactRange, Get and Close must return.'),
+  note=('Partial: liveness is termination under fairness in the model and "returned within the watchdog" on the implementation; timers/back-off are outside the model. Known finding (model level, not reproduced on the implementation): SetReadOnly racing Close can leave the write-lock token behind. '
+        'Known finding D8: a failed manifest write poisons the manifest journal writer and the commit retry loop then holds compCommitLk for good.')),
+ 'C11': dict(
+  technique='Lean 4 theorems over the interleaving model (transaction steps) + crash images and commit faults around transactions on the real DB',
+  text=('5 theorems (Props/C11.lean, over Model/Conc.lean): tr_reads (reads inside see the DB at open plus the private entries), tr_freezes_history, tr_isolation (no reader outside observes a private entry while the transaction is open), tr_commit_atomic (one publication step makes all of them visible), '
+        'tr_discard_clean. Tie: the t.open/t.installed/t.publish/t.done hook events of concurrent runs are replayed through Conc.step (C05 trace validation); single-client programs check visibility inside/outside (C01 runner); this check takes crash images around OpenTransaction..Commit/Discard '
+        '(bodies spanning several internal flushes, large batches): committed = entirely present in every later image, discarded/in flight = entirely absent or entirely present; no table of a discarded transaction stays on storage; other writers block while it is open; commit faults + Discard + reopen.'),
+  note='Known findings D8 and D10 (a manifest record that reached the file although commit reported failure) are matched by signature. Durability of a committed transaction across crashes is part of C04\'s theorem.'),
+ 'C14': dict(
+  technique='Lean 4 refinement theorem (ideal skip list refines a sorted map and a cursor, for every op sequence and tower height) + state-machine differential against memdb.DB',
+  text=('5 theorems (Props/C14.lean): inv_preserved (levels strictly sorted, each a sublist of the one below, level 0 = key domain, n and kvSize exact) for every op and every height in 1..tMaxHeight; memdb_refines_map (Put/Delete/Get/Find/Contains/Len/Size and every iterator call sequence with any range equal the sorted association list / cursor); '
+        'concurrent_readers_partial (with atomic method steps: every yielded pair was stored with that value, Next strictly increases). Tie: tMaxHeight and node offsets regenerated; ~1.6 million operations per run on memdb.New over five comparers compared with the compiled model (heights reproduced from the fixed seed); '
+        'concurrency oracle: one writer + 4-16 readers, no panic, ordered keys, only stored pairs.'),
+  note='Partial: the array encoding of the skip list is abstracted (differential only); Delete/Reset during iteration are outside concurrent_readers_partial (concurrent_readers_full kept as a statement); the Go memory model and RWMutex are assumed.'),
+ 'C17': dict(
+  technique='Lean 4 invariant proofs over an instruction-level interleaving model of cache.go/lru.go + sequential differential + concurrent stress with instrumented values',
+  text=('10 theorems (Props/C17.lean): unique_live_value, finalise_once_after_release, del_after_last_handle, lru_capacity (used = sum of sizes <= capacity, banned nodes stay banned), ref_is_count — for any number of threads and handles; explicit counter-example runs for the unguarded Close races. '
+        'Tie: hash-table thresholds regenerated; ~10^5 sequential cache operations per run (growth and shrinkage of the table) compared with the compiled model incl. constructor/finaliser/delFunc events, Nodes() and Size(); 1200 concurrent rounds with per-residency oracles (constructor once, finaliser exactly once and never under an outstanding handle, delFunc once). '
+        'Defect D24 (force Close racing the last Release finalised twice) was found by the stress and fixed.'),
+  note='Partial: the lock-striped resizable hash table is abstracted to a map with atomic per-key steps; finalise_exactly_once_full (at-least-once at quiescence) is kept as a statement and checked by the Go oracle; Close racing a last Release + Get is proved only under the stated guard.'),
+ 'C18': dict(
+  technique='Lean 4 lifecycle table theorems + exhaustive method table on a recording storage',
+  text=('15 theorems (Props/C18.lean): single_owner, second_open_refused, available_after_close, openRO_any_journals, closed_is_closed, released_handles, ro_rejects_writes, ro_no_mutation, setReadOnly_quiesces_partial (and the refutation of the full statement: defect D14, known finding), table_sound. '
+        'Tie: every public method of DB, Snapshot, Transaction and iterator (checked against reflection) is called in each lifecycle state after random histories (journal-only data, tables, pending frozen buffer, open transaction, live handles) on the recording storage: error class and number of mutating storage operations are compared with the model table (~57 000 lines per run); '
+        'lock exclusivity on mem and file storage; read-only open serves the plain map with zero mutating operations; Close races under watchdogs. Defects D15 D18 D28 D29 were found by this check and fixed.'),
+  note='Holding an iterator across Close violates Close\'s documented precondition and the shared lock of read-only file storage is by design: both are reported as notes, not violations.'),
+
  'C10': dict(
   technique='Lean 4 invariant, progress and termination proofs over an interleaving model of the write-merge channel protocol (any number of writers) + trace validation of recorded hook events',
   text=('7 theorem groups (Props/C10.lean) over Model/WriteProto.lean (writers with pcs idle/selecting/waitMerged/waitAck/leader phases flush-merging-journal-apply-publish-rotate-acking, lock competitors, closed and persistent-error flags; '
